@@ -116,7 +116,10 @@ class PITFrozenTimestepMasker(PITTimestepMasker):
             rf,
             trainable=False,
         )
-        self.beta.requires_grad = False
+        # a frozen mask is a constant: keep it in a buffer so that it is never a trainable parameter
+        beta = self.beta.detach()
+        del self.beta
+        self.register_buffer('beta', beta)
 
     @property
     def trainable(self) -> bool:
